@@ -14,9 +14,11 @@ package main
 //   quota    a lowered maximum applied through ApplyConf/UpdateQueueProperties, then TryQuotaPreemption (synchronous hook)
 
 import (
+	"bufio"
 	"encoding/json"
 	"fmt"
 	"hash/fnv"
+	"io"
 	"math"
 	"math/rand"
 	"os"
@@ -376,6 +378,17 @@ func (p *prePlugin) UpdateContainerSchedulingState(*si.UpdateContainerScheduling
 type preemptDrv struct {
 	c    *Ctx
 	spec jm
+	last jm // the line of the last operation
+}
+
+// dry runs an operation on a fresh copy of the world without recording it (no line, no statistics) and returns its line
+func (d *preemptDrv) dry(op jm) jm {
+	saved := d.c
+	d.c = &Ctx{rng: saved.rng, stats: map[string]int{}, out: bufio.NewWriter(io.Discard), n: saved.n, tier: saved.tier}
+	defer func() { d.c = saved }()
+	d.last = nil
+	d.apply(op)
+	return d.last
 }
 
 func (d *preemptDrv) apply(op jm) {
@@ -386,6 +399,7 @@ func (d *preemptDrv) apply(op jm) {
 	for k, v := range op {
 		line[k] = v
 	}
+	d.last = line
 	c.stat("op:" + name)
 	defer func() {
 		if r := recover(); r != nil {
@@ -580,7 +594,37 @@ func (d *preemptDrv) apply(op jm) {
 			}
 			line["plan"] = pl
 		}()
-		w.queues[0].VerifTryQuotaPreemptionSync()
+		if op["lateRelease"] != nil {
+			// "lateRelease": the quota preemption is run step by step (hook); the allocations named here are released
+			// (SetReleased(true)) AFTER filterAllocations / sortAllocations of their leaf queue listed them and BEFORE
+			// preemptVictims marks its victims. "cands" records the filtered, sorted allocations per leaf queue.
+			late := map[string]bool{}
+			for _, k := range arr(op["lateRelease"]) {
+				late[jsonStr(k)] = true
+			}
+			cands := []interface{}{}
+			done := []string{}
+			w.queues[0].VerifTryQuotaPreemptionSyncStepped(func(leaf string, filtered []*objects.Allocation) {
+				cands = append(cands, []interface{}{leaf, keysOf(filtered, false)})
+				for _, a := range filtered {
+					if late[a.GetAllocationKey()] && a.SetReleased(true) == nil {
+						done = append(done, a.GetAllocationKey())
+					}
+				}
+			})
+			sort.Slice(cands, func(i, j int) bool {
+				return cands[i].([]interface{})[0].(string) < cands[j].([]interface{})[0].(string)
+			})
+			sort.Strings(done)
+			line["cands"] = cands
+			line["lateReleased"] = done
+			c.stat("quota-stepped")
+			if len(done) > 0 {
+				c.stat("quota-late-release")
+			}
+		} else {
+			w.queues[0].VerifTryQuotaPreemptionSync()
+		}
 		running, startAfter := q.VerifQuotaPreemptionState()
 		line["runningAfter"] = running
 		line["startAfter"] = startAfter
@@ -948,6 +992,75 @@ func genWorld(c *Ctx) jm {
 	return jm{"op": "reset", "queues": queues, "nodes": nodes, "allocs": allocs, "ask": ask}
 }
 
+// lateQuotaVariants: for a "quota" operation that was just run, the same operation run step by step with 1..2 allocations
+// released between the filtering of the candidates and the marking of the victims. A dry run (step by step, nothing
+// released) tells which allocations become victims: the keys come from them (two variants when there are several, now
+// and then mixed with a candidate that was not selected); an operation without victims gets a variant (30%) that
+// releases candidates. Choices come from a generator seeded by the world and the operation (see lateVariants).
+func (d *preemptDrv) lateQuotaVariants(op jm) {
+	b, err := json.Marshal(jm{"w": d.spec, "op": op})
+	if err != nil {
+		panic(err)
+	}
+	h := fnv.New64a()
+	h.Write(b)
+	rng := rand.New(rand.NewSource(int64(h.Sum64() >> 1)))
+	probe := jm{}
+	for k, x := range op {
+		probe[k] = x
+	}
+	probe["lateRelease"] = []string{}
+	line := d.dry(probe)
+	if line == nil || line["panic"] != nil || line["planPanic"] != nil {
+		return
+	}
+	marked, _ := line["marked"].([]string)
+	cands := []string{}
+	if cl, ok := line["cands"].([]interface{}); ok {
+		for _, e := range cl {
+			cands = append(cands, e.([]interface{})[1].([]string)...)
+		}
+	}
+	choose := func(from []string, n int) []string {
+		idx := rng.Perm(len(from))
+		out := []string{}
+		for i := 0; i < n && i < len(idx); i++ {
+			out = append(out, from[idx[i]])
+		}
+		return out
+	}
+	variants := 0
+	switch {
+	case len(marked) >= 2:
+		variants = 2
+	case len(marked) == 1:
+		variants = 1
+	case len(cands) > 0 && rng.Float64() < 0.3:
+		variants = 1
+	}
+	for v := 0; v < variants; v++ {
+		n := 1
+		if rng.Float64() < 0.4 {
+			n = 2
+		}
+		var keys []string
+		if len(marked) > 0 {
+			keys = choose(marked, n)
+			if rng.Float64() < 0.25 {
+				keys = append(keys, choose(cands, 1)...)
+			}
+		} else {
+			keys = choose(cands, n)
+		}
+		late := jm{}
+		for k, x := range op {
+			late[k] = x
+		}
+		late["lateRelease"] = keys
+		d.apply(late)
+	}
+}
+
 // dryTry runs a "try" operation on a fresh copy of the world WITHOUT recording it: did the preconditions pass, which
 // allocations were potential victims (in snapshot order) and which were marked (the final victims)
 func (d *preemptDrv) dryTry(op jm) (pre bool, potential, marked []string) {
@@ -1171,7 +1284,9 @@ func runPreempt(c *Ctx) {
 				}
 			}
 			// a 1ms delay is always waited for (not waiting would race with the clock); "delay not elapsed" is the 1h case
-			d.apply(jm{"op": "quota", "q": qi, "max": encRes(nm), "delay": delay, "wait": delay == "1ms" || c.chance(0.5)})
+			quotaOp := jm{"op": "quota", "q": qi, "max": encRes(nm), "delay": delay, "wait": delay == "1ms" || c.chance(0.5)}
+			d.apply(quotaOp)
+			d.lateQuotaVariants(quotaOp)
 		}
 		// a history of quota changes on a queue that uses something
 		if len(qs) > 1 {
